@@ -261,6 +261,8 @@ def run(ctx):
     # ---- ORDER BY / LIMIT combined with GROUP BY and HAVING (aggregate outputs as keys): Exec.execute_tail
     import c13
     tails = T.htable(["-mode", "e2etail", "-n", 40 * mult, "-seed", seed + 1])
+    # two grouping keys, SELECT / GROUP BY / ORDER BY naming them in independent orders, ORDER BY mostly a prefix of GROUP BY
+    tails += T.htable(["-mode", "e2etailg", "-n", 80 * mult, "-seed", seed + 2])
     tcodes = T.coq_verdicts(ctx, "c12_tail", [c13.tail_item(c) for c in tails], imports="Reduce ReduceSpec Expr ExprSpec Exec", shard=300)
     for c, v in zip(tails, tcodes):
         dist["tail:%s:%s:%d" % (c["shape"], c["res"]["outcome"], v)] += 1
